@@ -76,3 +76,6 @@ def run(chk):
     UC.run_family(chk, 'C03', [(['C2', 'M2'], core + rnd)], entries=('ext_dirty', 'ext'), check_unit=True)
     core3i = [f for f in G.core_plain(['v0', 'v2']) if S.depth(f) <= 3 and S.quant_depth(f) <= 1] + [('iff', ('prop', 'v0'), ('prop', 'v1')), ('true',), ('bind', 'x', 'd', ('EX', ('or', ('var', 'x'), ('wild', 'w'))))]
     UC.run_family(chk, 'C03', [(['I3'], core3i if thorough else core3i[::2])], entries=('ext_dirty', 'ext'), check_unit=True)
+    small = G.sample_small(chk.rng, 2400 if thorough else 240, sizes=(3, 4, 5), un=('not', 'EX', 'AX', 'EF', 'AG'), bins=('and', 'or', 'iff', 'EU'))
+    UC.sweep(chk, 'C03', small, which=('C2', 'M2') if thorough else ('C2',), check_unit=True, label='small formulas on constrained instances', signature='outside-unit')
+
